@@ -235,5 +235,20 @@ def family(tier='quick'):
     out.append(T('c:tab_comments', _re.sub(r'//[^\n]*', '//\t', '\n'.join(base)) + '\n'))
     out.append(T('c:empty_comments', '//\nroot packet Root {\n    //\n    u8 a, //\n    //   \n}\n//'))
     out.append(T('c:meta_comments', 'MetaData M { // brace\n    // before entry\n    u16 a `d`, // after entry\n    a b `e`,\n} // after meta\n\nroot packet Root {\n    b x,\n}\n'))
+    # long tokens: a key / identifier / doc string / comment of about a hundred characters meets every width-dependent rule
+    K1, K2, K3 = 'A' * 97, 'B' * 46, 'C' * 45
+    out.append(T('l:long_keys2', 'root packet Root {\n    string k,\n    match k as b {\n        ["%s", "x"] : Other,\n        "%s" : Third,\n    },\n}\n\n' % (K1, 'D' * 130) + AUX))
+    out.append(T('l:long_keylist_edge', 'root packet Root {\n    string k,\n    match k as b {\n  ["%s", "%s"] : Other,\n                                                  ["%s", "%s"] : Third,\n    },\n}\n\n' % (K2, K3, 'E' * 45, 'F' * 46) + AUX))
+    out.append(T('l:long_ident_doc', 'root packet Root {\n    u8 %s `%s`, // %s\n    Other %s,\n}\n\n' % ('f' * 110, 'doc ' * 40, 'c' * 120, 'o' * 101) + AUX))
+    # the same tokens with blanks / line breaks inside the multi-token rules (types, attributes, lists, options)
+    out.append(T('l:inner_blanks', "options {\n    StringPrefixLenType   =   u8  ;\n    ArrayPrefixLenType = char[ 4 ];\n}\n\nMetaData M {\n    zchar[ 3 ] z `z`,\n}\n\nroot packet Root {\n    char[ 10 ] a,\n    zchar[\n        5\n    ] b,\n    @leftPad( '0' )\n    char[\t4\t] c,\n    u16 l @lengthOf( body ),\n    u8 k,\n    match k as body {\n        [ 1 ,\n          2 ] : Other,\n    },\n    u32 ck @calculatedFrom( \"CRC32\" ),\n}\n\n" + AUX, wellformed=False))
+    out.append(T('l:bare_cr', 'root packet Root {\r    u8 a, // first\r    int8\rb,\r    Other o, // last\r}\r\r' + AUX.replace('\n', '\r')))
+    out.append(T('l:mixed_cr', '// head\rroot packet Root {\n    u8 a,\r    u16 b, // c\r\n    string s,\n}\n'))
+    out.append(T('l:double_blanks', 'root packet Root {\n    string k `two  blanks\tand a tab`,\n    match k as b {\n        "LO  " : Other, // two  blanks\n        ["A  B", "C\tD"] : Third,\n    },\n}\n\n' + AUX))
+    out.append(T('l:no_final_newline', 'root packet Root {\n    u8 a,\n}\n\npacket Other {\n    u8 v,\n}\npacket AVeryLongLastLineWithoutALineTerminator { u8 %s, u16 z, }' % ('w' * 60)))
+    out.append(T('l:acronym_whole_names', 'options {\n    GoPackage = "msg";\n    JavaPackage = "com.x";\n}\n\nroot packet Root {\n    u32 id,\n    string url,\n    u8 ip,\n    u16 ttl,\n    Uid uid,\n}\n\npacket Uid {\n    u64 Id,\n    u8 api,\n}\n'))
+    out.append(T('o:dup_default_first', 'options {\n    LittleEndian = false;\n    LittleEndian = true;\n}\n\nroot packet Root {\n    u8 a,\n}\n', [('dup-option', 3, 3)]))
+    out.append(T('o:dup_default_pfx', 'options {\n    StringPrefixLenType = u16;\n    ArrayPrefixLenType = u16;\n    StringPrefixLenType = u8;\n}\n\nroot packet Root {\n    string a,\n}\n', [('dup-option', 4, 4)]))
+    out.append(T('o:dup_default_pad', 'options {\n    FixedStringPadFromLeft = false;\n}\n\noptions {\n    FixedStringPadFromLeft = true;\n}\n\nroot packet Root {\n    char[4] a,\n}\n', [('dup-option', 6, 6)]))
     out.append(T('c:between_tokens', 'root // c1\npacket // c2\nRoot // c3\n{\n    u8 // c4\n    a // c5\n    , // c6\n}\n'))
     return out
